@@ -98,8 +98,25 @@ Theorem C17_or_any : forall P R (matches : rewrite_field * P -> R -> frag -> opt
 Proof. intros. split; [intros f; apply or_extract_some|apply or_extract_none]. Qed.
 Print Assumptions C17_or_any.
 
+(* the fields of an element are applied in the declaration order of RewriteField, whatever the
+   order they were written in (the FieldMatcher is a HashMap; /repo cce0c70): the compiled
+   element holds the written fields, each once, sorted by that order; compiling a rule changes
+   nothing else.  The importers run the rules compiled (Model/ImpCsv.v row_fragment,
+   Model/ImpCamtMatch.v camt_fragment). *)
+Theorem C17_fields_in_declaration_order : forall P (a : and_list P) (r : rule P),
+  Permutation a (and_compile a)
+  /\ Sorted (fun x y => rf_rank (fst x) <= rf_rank (fst y)) (and_compile a)
+  /\ r_matcher (rule_compile r) = map and_compile (r_matcher r)
+  /\ r_pending (rule_compile r) = r_pending r /\ r_payee (rule_compile r) = r_payee r
+  /\ r_account (rule_compile r) = r_account r /\ r_conversion (rule_compile r) = r_conversion r.
+Proof.
+  intros P a r. split; [apply and_compile_perm|]. split; [apply and_compile_sorted|].
+  repeat split.
+Qed.
+Print Assumptions C17_fields_in_declaration_order.
+
 (* an element matches iff every one of its fields does, each field seeing the captures of the
-   fields before it (in the map's iteration order) *)
+   fields before it (in the order of the compiled element) *)
 Theorem C17_and_all : forall P R (matches : rewrite_field * P -> R -> frag -> option captures)
     (ms : and_list P) (cur : frag) (e : R),
   and_extract matches ms cur e <> None <->
